@@ -47,7 +47,9 @@ def greedy_changepoint_selection(
     ends: np.ndarray,
     threshold: float,
 ) -> list[int]:
-    scores = scores.copy()
+    # A NaN score (e.g. from overflow in the score) does not exceed the threshold, but
+    # it would be picked by argmax: treat it as an interval that can never be selected.
+    scores = np.where(np.isnan(scores), -np.inf, scores)
     cpts = []
     while np.any(scores > threshold):
         argmax = scores.argmax()
